@@ -177,19 +177,29 @@ type MsgSnap struct {
 	Vars      []string `json:"vars"`
 	Str       string   `json:"string"`
 	Bytes     string   `json:"bytes"`
+	Panic     string   `json:"panic,omitempty"`
 }
 
-func Snap(m *ast.DataMessage) MsgSnap {
-	return MsgSnap{
-		Name: m.Name(), Stream: m.StreamCode(), Function: m.FunctionCode(), WaitBit: m.WaitBit(),
-		Direction: m.Direction(), Session: m.SessionID(), Sys: fmt.Sprintf("%x", m.SystemBytes()),
-		Header: m.Header(), Type: m.Type(), Vars: append([]string{}, m.Variables()...), Str: m.String(),
-		Bytes: string(m.ToBytes()),
-	}
+// Snap reads every observer. An observer that panics is an observation (field Panic), not a crash of the harness.
+func Snap(m *ast.DataMessage) (s MsgSnap) {
+	defer func() {
+		if r := recover(); r != nil {
+			s.Panic = fmt.Sprint("observer panicked: ", r)
+		}
+	}()
+	s.Name, s.Stream, s.Function, s.WaitBit = m.Name(), m.StreamCode(), m.FunctionCode(), m.WaitBit()
+	s.Direction, s.Session, s.Sys = m.Direction(), m.SessionID(), fmt.Sprintf("%x", m.SystemBytes())
+	s.Header, s.Type = m.Header(), m.Type()
+	s.Vars = append([]string{}, m.Variables()...)
+	s.Str = m.String()
+	s.Bytes = string(m.ToBytes())
+	return s
 }
 
 func (a MsgSnap) Diff(b MsgSnap) string {
 	switch {
+	case a.Panic != b.Panic:
+		return fmt.Sprintf("%q vs %q", a.Panic, b.Panic)
 	case a.Name != b.Name:
 		return fmt.Sprintf("Name %q vs %q", a.Name, b.Name)
 	case a.Stream != b.Stream:
@@ -243,14 +253,26 @@ type ItemSnap struct {
 	Bytes string
 	Vars  []string
 	Size  int
+	Panic string
 }
 
-func SnapItem(it ast.ItemNode) ItemSnap {
-	return ItemSnap{Str: Str(it), Bytes: string(it.ToBytes()), Vars: append([]string{}, it.Variables()...), Size: it.Size()}
+func SnapItem(it ast.ItemNode) (s ItemSnap) {
+	defer func() {
+		if r := recover(); r != nil {
+			s.Panic = fmt.Sprint("observer panicked: ", r)
+		}
+	}()
+	s.Str = Str(it)
+	s.Bytes = string(it.ToBytes())
+	s.Vars = append([]string{}, it.Variables()...)
+	s.Size = it.Size()
+	return s
 }
 
 func (a ItemSnap) Diff(b ItemSnap) string {
 	switch {
+	case a.Panic != b.Panic:
+		return fmt.Sprintf("%q vs %q", a.Panic, b.Panic)
 	case a.Str != b.Str:
 		return fmt.Sprintf("String %q vs %q", clip(a.Str), clip(b.Str))
 	case a.Size != b.Size:
